@@ -8,7 +8,7 @@ from common import R, Rmat, Cx, fl, flmat, cfl, max_rel_err
 
 from common import wiring_pre_build as pre_build  # noqa: E402,F401
 
-LEAN_MODULES = ["PyomaVerif.Props.C05", "PyomaVerif.Props.C05Charpoly", "PyomaVerif.Props.C05E2E", "PyomaVerif.Mutants.C05", "PyomaVerif.Props.WiringRun"]
+LEAN_MODULES = ["PyomaVerif.Props.C05", "PyomaVerif.Props.C05Charpoly", "PyomaVerif.Props.C05E2E", "PyomaVerif.Mutants.C05", "PyomaVerif.Props.WiringRun", "PyomaVerif.Props.C05Stored"]
 THEOREMS = [
     # call-site wiring of the class layer, regenerated from /repo on every run (translate_wiring.py)
     "PV.WiringRun.C05_run_plscf",
@@ -82,6 +82,9 @@ THEOREMS = [
     "PV.Mutants.C05.blankNegative_fails",
     "PV.Mutants.C05.padShort_fails",
     "PV.Mutants.C05.noInfFix_fails",
+    # depth round: the pLSCF pole table composed with the hard criteria -> the STORED tables
+    "PV.C05Stored.C05_stored",
+    "PV.C05Stored.Ex.stored",
 ]
 RULE = (
     "correspondence: rmfd2ac on random coefficient stacks (identity / unimodular / float leading block, equal and unequal "
